@@ -71,7 +71,17 @@ var concurrentCheck = &core.Check{Name: "c16/concurrent", Quick: 1, Thorough: 10
 	for w := range copies {
 		copies[w] = shared // value copies: they share what the message holds behind pointers
 	}
+	one := &shared // and the very same decoded message, asked by every goroutine (a worker pool over one decoded block)
 	return core.Parallel(workers, rounds, procs, func(w, r int) error {
+		if r%3 == 2 {
+			if got := one.Hash(true); got != wantNorm {
+				return fmt.Errorf("Hash(true) of one decoded external-in message asked by %d goroutines at once = %x; one goroutine got %x", workers, got, wantNorm)
+			}
+			if got := one.Hash(false); got != wantRaw {
+				return fmt.Errorf("Hash(false) of one decoded message asked by %d goroutines at once = %x, one goroutine got %x", workers, got, wantRaw)
+			}
+			return nil
+		}
 		if r%2 == 0 {
 			if got := copies[w].Hash(true); got != wantNorm {
 				return fmt.Errorf("Hash(true) of a copy of a decoded external-in message with an anycast destination = %x while other goroutines ask their copies; one goroutine got %x", got, wantNorm)
